@@ -200,6 +200,15 @@ func dataFetch(url string) (body []byte, err error) {
 }
 
 func dataParse(rawMsg []byte, pathStr string) (msg []byte, err error) {
+	// The selector comes from the request event and the document from the
+	// network. xmlquery.Find panics on an expression it cannot compile, and the
+	// XPath / JSONPath evaluators panic on some they can (non node-set results,
+	// division by zero, ...): answer such a query with an error.
+	defer func() {
+		if r := recover(); r != nil {
+			msg, err = nil, fmt.Errorf("dataParse: selector %q: %v", pathStr, r)
+		}
+	}()
 	if pathStr == "" {
 		msg = rawMsg
 	} else if strings.HasPrefix(pathStr, "$") {
